@@ -414,7 +414,7 @@ func (p *path) addRule(
 }
 
 func quote(raw []byte) []byte {
-	if n := len(raw); n > 0 && (raw[0] != '"' || raw[n-1] != '"') {
+	if n := len(raw); n < 2 || raw[0] != '"' || raw[n-1] != '"' {
 		raw = strconv.AppendQuote(raw[:0], string(raw))
 	}
 	return raw
